@@ -84,6 +84,24 @@ def check_fit(case, ctx):
         step = kw.get('step', 0.1)
         lim = hi * (1 + step) + (step if kw.get('linear') else 0) + 1e-9
         require(sma.max() <= lim, 'sma_above_maxsma', f'{sma.max()} > {hi}')
+    # sample points off the image must be flagged, on every side and in
+    # every integration mode (never read from the opposite edge)
+    tt = np.linspace(0, 2 * math.pi, 361)[:-1]
+    for s in iso:
+        if not s.sma > 0 or not all(map(math.isfinite, (s.x0, s.y0, s.eps, s.pa))):
+            continue
+        a_, b_ = s.sma, s.sma * (1 - s.eps)
+        ex_ = s.x0 + a_ * np.cos(tt) * math.cos(s.pa) - b_ * np.sin(tt) * math.sin(s.pa)
+        ey_ = s.y0 + a_ * np.cos(tt) * math.sin(s.pa) + b_ * np.sin(tt) * math.cos(s.pa)
+        off = (ex_ < -1.5) | (ey_ < -1.5) | (ex_ > nx + 0.5) | (ey_ > ny + 0.5)
+        if off.mean() > 0.05:
+            ctx.event('isophote_partly_off_image')
+            if not s.nflag >= 1:
+                raise Violation('off_image_samples_unflagged',
+                                f'sma {s.sma:.2f}: {off.mean():.0%} of the '
+                                f'ellipse lies off the {ny}x{nx} image but '
+                                f'nflag = {s.nflag} (ndata {s.ndata}, '
+                                f'integrmode {kw.get("integrmode", "bilinear")})')
     nontriv = (g['eps'] >= 0.2 and abs(i['dpa']) > 0.1) or any(
         kw.get(k) for k in ('fix_center', 'fix_pa', 'fix_eps'))
     ctx.mark(nontriv)
@@ -98,15 +116,20 @@ def check_fit(case, ctx):
                                 f'({x_i},{y_i}) (stop_code {s.stop_code})')
         if kw.get('fix_pa') and s.pa != pa_i:
             raise Violation('fixed_pa_changed', f'sma {s.sma}: pa {s.pa} != {pa_i}',
+                            # F30: each eps = 0 crossing adds or subtracts
+                            # pi/2; two crossings return to pa_i up to the
+                            # rounding of (pa + pi/2) - pi/2
                             rotated_by_90deg=bool(
-                                abs(abs(s.pa - pa_i) - math.pi / 2) < 1e-9))
+                                abs(abs(s.pa - pa_i) - math.pi / 2) < 1e-9
+                                or abs(s.pa - pa_i) < 1e-12))
         if kw.get('fix_eps') and s.eps != eps_i:
             raise Violation('fixed_eps_changed', f'sma {s.sma}: eps {s.eps} != {eps_i}')
     fixed_any = any(kw.get(k) for k in ('fix_center', 'fix_pa', 'fix_eps'))
     f = radial_law(g)
     edge = min(g['x0'], g['y0'], nx - 1 - g['x0'], ny - 1 - g['y0'])
     area_mode = kw.get('integrmode', 'bilinear') != 'bilinear'
-    quant = not fixed_any and not kw.get('maxit')
+    quant = not fixed_any and not kw.get('maxit') \
+        and kw.get('integrmode') != 'nearest_neighbor'   # not calibrated
     easy = g['law'] == 'gauss' or (g['n'] <= 2 and g['eps'] <= 0.6)
     nw = 0
     if quant and g['eps'] <= 0.6 and not (g['law'] == 'sersic' and g['n'] == 4):
@@ -219,13 +242,13 @@ def fit_cases(draw):
          'n': draw(st.sampled_from([1, 2, 4]))}
     kw = {}
     opt = draw(st.sampled_from(['default', 'default', 'step02', 'linear', 'mean',
-                                'median', 'fix_center', 'fix_pa', 'fix_eps',
-                                'fix_maxit', 'range']))
+                                'median', 'nearest_neighbor', 'fix_center',
+                                'fix_pa', 'fix_eps', 'fix_maxit', 'range']))
     if opt == 'step02':
         kw['step'] = 0.2
     elif opt == 'linear':
         kw.update(linear=True, step=draw(st.sampled_from([2.0, 3.0, 4.0])))
-    elif opt in ('mean', 'median'):
+    elif opt in ('mean', 'median', 'nearest_neighbor'):
         kw['integrmode'] = opt
     elif opt in ('fix_center', 'fix_pa', 'fix_eps'):
         kw[opt] = True
@@ -233,7 +256,7 @@ def fit_cases(draw):
         kw[draw(st.sampled_from(['fix_center', 'fix_pa', 'fix_eps']))] = True
         kw['maxit'] = 12
     elif opt == 'range':
-        kw['minsma'] = draw(st.sampled_from([0.0, 2.0, 4.0]))   # <= sma0
+        kw['minsma'] = draw(st.sampled_from([0.0, 2.0, 4.0, 0.3]))   # <= sma0
         kw['maxsma'] = draw(st.sampled_from([30.0, 40.0]))
     return {'galaxy': g,
             'init': {'dx': draw(st.floats(-1.5, 1.5)), 'dy': draw(st.floats(-1.5, 1.5)),
